@@ -98,6 +98,9 @@ type target struct {
 	h      http.Handler
 	draw   func(rt *rapid.T) op
 	breaks bool // uses the breaker: let the clock move
+	// audit, if set, runs as one more task after all others have finished (so that it only synchronises with them
+	// through the locks of the code under test) and returns a description of lost updates, or ""
+	audit func() string
 }
 
 func drawCode(rt *rapid.T) string {
@@ -157,7 +160,7 @@ func metricsOps(rt *rapid.T, m *memmetrics.RTMetrics) op {
 
 func buildTarget(rt *rapid.T) target {
 	extract, _ := utils.NewExtractor("request.header.Src")
-	kind := rapid.SampledFrom([]string{"connlimit", "ratelimit", "roundrobin", "rebalancer", "roundrobin-sticky", "rebalancer-sticky", "cbreaker", "rtmetrics", "trace", "stack", "stack"}).Draw(rt, "target")
+	kind := rapid.SampledFrom([]string{"connlimit", "ratelimit", "roundrobin", "rebalancer", "roundrobin-sticky", "rebalancer-sticky", "cbreaker", "rtmetrics", "rtmetrics-count", "trace", "stack", "stack"}).Draw(rt, "target")
 	if only := simkit.Only(); only != "" {
 		kind = only
 	}
@@ -243,6 +246,39 @@ func buildTarget(rt *rapid.T) target {
 		m, err := memmetrics.NewRTMetrics()
 		must(err)
 		return target{name: kind, breaks: true, draw: func(rt *rapid.T) op { return metricsOps(rt, m) }}
+	case "rtmetrics-count":
+		// "no counter update is lost": every Record must be counted whatever the interleaving (the clock stands still,
+		// nothing ages out). A lost update needs no data race: a check-then-act split across two critical sections loses one too.
+		m, err := memmetrics.NewRTMetrics()
+		must(err)
+		want := map[int]int64{}
+		var total, netErr int64
+		return target{name: kind, draw: func(rt *rapid.T) op {
+			if rapid.IntRange(0, 4).Draw(rt, "count-read") == 0 {
+				return func() { _ = m.StatusCodesCounts(); _ = m.ResponseCodeRatio(500, 600, 0, 600) }
+			}
+			code := rapid.SampledFrom([]int{200, 200, 500, 502, 504, 404}).Draw(rt, "rec-code")
+			want[code]++
+			total++
+			if code == 502 || code == 504 {
+				netErr++
+			}
+			return func() { m.Record(code, 5*time.Millisecond) }
+		}, audit: func() string {
+			got := m.StatusCodesCounts()
+			for c, n := range want {
+				if got[c] != n {
+					return fmt.Sprintf("status %d was recorded %d times, StatusCodesCounts reports %d (all: %v)", c, n, got[c], got)
+				}
+			}
+			if t := m.TotalCount(); t != total {
+				return fmt.Sprintf("%d responses recorded, TotalCount reports %d", total, t)
+			}
+			if e := m.NetworkErrorCount(); e != netErr {
+				return fmt.Sprintf("%d network errors recorded, NetworkErrorCount reports %d", netErr, e)
+			}
+			return ""
+		}}
 	case "trace":
 		tr, err := trace.New(bottom, &lockedWriter{}, trace.RequestHeaders("Src"), trace.ResponseHeaders("X-None"))
 		must(err)
@@ -394,6 +430,13 @@ func c09prop(r *simkit.Run) {
 	}
 	if sim.Deadlocked() {
 		r.Fail("deadlock", "no task can run but %d wait for a lock (%s)", len(sim.Blocked()), tg.name)
+	}
+	if tg.audit != nil {
+		at := sim.Spawn("audit", func() { sim.Current().SetResult(tg.audit()) })
+		sim.RunTask(at)
+		if msg, _ := at.Result().(string); msg != "" {
+			r.Fail("lost-update", "%s: %s", tg.name, msg)
+		}
 	}
 	for _, tk := range sim.Tasks() {
 		if tk.Panic != nil {
